@@ -87,9 +87,15 @@ func c08r2(r *R) {
 		r.check(len(why) == 0, "Conn."+m+"#header-first", fn.Pos(), "readHeader precedes every use of the embedded conn", strings.Join(dedupStrings(why), "; "))
 	}
 	// readHeader is the real thing
-	rh := r.method("proxyproto", "Conn", "readHeader")
-	ps, _ := enumPaths(rh, 8, 1)
-	r.check(len(ps) == 1 && strings.HasPrefix(ps[0].Ret[0], "(*proxyproto.Conn).readHeaderContext($0, "), "Conn.readHeader", rh.Pos(), "readHeader = readHeaderContext", "readHeader does not read the header")
+	var ps []Path
+	if rh := r.methodOpt("proxyproto", "Conn", "readHeader"); rh != nil {
+		ps, _ = enumPaths(rh, 8, 1)
+		r.check(len(ps) == 1 && strings.HasPrefix(ps[0].Ret[0], "(*proxyproto.Conn).readHeaderContext($0, "), "Conn.readHeader", rh.Pos(), "readHeader = readHeaderContext", "readHeader does not read the header")
+	} else if inlinedWrapper("(*proxyproto.Conn).readHeader") {
+		r.ok("Conn.readHeader", r.method("proxyproto", "Conn", "readHeaderContext").Pos(), "readHeader is written out at its call sites as readHeaderContext(context.Background())")
+	} else {
+		r.missing("method proxyproto.Conn.readHeader")
+	}
 	// Accept wraps
 	acc := r.method("proxyproto", "Listener", "Accept")
 	ps, _ = enumPaths(acc, 64, 1)
@@ -577,8 +583,11 @@ func c08r6(r *R) {
 				if strings.HasPrefix(k, "^") {
 					var i int
 					var f string
-					fmt.Sscanf(k, "^%d.%s", &i, &f)
-					got[bindName(i)+"."+f] = v
+					if n, _ := fmt.Sscanf(k, "^%d.%s", &i, &f); n >= 1 {
+						got[bindName(i)+"."+f] = v
+					} else {
+						got[k[1:]] = v // a field of a captured grouping struct: reads like the variable it replaces
+					}
 				}
 			}
 			for k, v := range got {
